@@ -251,7 +251,7 @@ def program_set(tier: str):
         for sp in gen.SPINES:
             progs += gen.edits(sp, PRIME, 1)
         extras = 2
-    progs += TWO_WRITERS
+    progs += TWO_WRITERS + list(gen.MENU_PROGS)
     progs = [p for p in sorted(set(progs)) if not any(s in gen.DELIBERATE for s in p)]
     return [(p, extras if len(p) <= 2 else 1) for p in progs]
 
